@@ -94,7 +94,7 @@ pub fn run(r: &Report) {
     let sens_n = r.tier.pick(130usize, 520);
     r.set_rule(&format!(
         "every leaf count 0..={} x 5 leaf-content menus (distinct, all-equal, all-zero, counter, equal-pairs); \
-         for counts <= {} every single-leaf bit flip and every adjacent swap; plus counts 4097, 65537. \
+         for counts <= {} every single-leaf bit flip and every adjacent swap; plus counts 4097, 65537; plus single-thread call histories (ascending / descending counts, list then each prefix, list then zero-extended list, last leaf zeroed). \
          non-trivial = (menu, n) with n >= 2",
         max_n, sens_n
     ));
@@ -102,6 +102,46 @@ pub fn run(r: &Report) {
     cases.par_iter().for_each(|&(m, n)| check_one(r, m, n, n <= sens_n));
     for n in [4097usize, 65537] {
         check_one(r, 0, n, false);
+    }
+    // histories on ONE thread (the function is pure; a memo of an earlier call must never leak into a later answer):
+    // every count 0..=40 ascending then descending per menu, and for every list L of 1..=12 leaves: root(L), then every
+    // proper prefix of L, L followed by 1..3 all-zero leaves, L with its last leaf zeroed, and L again
+    {
+        let mut n_hist = 0u64;
+        let mut ask = |l: &[[u8; 32]], what: &str| {
+            n_hist += 1;
+            r.trans(1);
+            let exp = merkle::fast_root(l);
+            match lib_root(l) {
+                Ok(g) if g == exp => {}
+                Ok(g) => r.violation(format!("history/root-mismatch/{}", what), json!({"history": what, "n": l.len()}), format!("n={} lib={} ref={}", l.len(), hex(&g), hex(&exp))),
+                Err(p) => r.violation("history/panic", json!({"history": what, "n": l.len()}), p),
+            }
+        };
+        for menu in 0..5 {
+            for n in (0..=40usize).chain((0..=40).rev()) {
+                ask(&leaves(menu, n), "ascending-then-descending");
+            }
+            for n in 1..=12usize {
+                let l = leaves(menu, n);
+                ask(&l, "list");
+                for k in (0..n).rev() {
+                    ask(&l[..k], "prefix-after-list");
+                    ask(&l, "list-after-prefix");
+                }
+                for z in 1..=3usize {
+                    let mut m = l.clone();
+                    m.extend(std::iter::repeat([0u8; 32]).take(z));
+                    ask(&m, "list-plus-zero-leaves");
+                    ask(&l, "list-after-extension");
+                }
+                let mut m = l.clone();
+                m[n - 1] = [0u8; 32];
+                ask(&m, "last-leaf-zeroed");
+                ask(&l, "list-again");
+            }
+        }
+        r.set_extra("sequential_history_calls", json!(n_hist));
     }
     if r.tier.thorough() {
         for n in [(1usize << 20) - 1, 1 << 20, (1 << 20) + 1] {
